@@ -4,7 +4,7 @@
    the iterators / split / replace never take an out-of-order, out-of-range or off-boundary
    slice and every yielded span is valid; (3) the branch stack is bounded (C07).
    (4) for compiled programs in the scope of the end-to-end theorem (Properties/C01.v: no Delegate
-   instruction, no conditional, no variable-length look-behind alternation) the VM never reaches
+   instruction, no conditional) the VM never reaches
    one of its panic sites and every capture slot it reports is unset or a character boundary
    inside the text.
    NOT proved: (4) for programs with Delegate instructions or conditionals, and SearchOK's
